@@ -120,6 +120,17 @@ Theorem C17_reversed_heights_error_reverse : forall hids l outH outV,
 Proof. exact qv_to_ext_reversed_heights. Qed.
 Print Assumptions C17_reversed_heights_error_reverse.
 
+Theorem C17_reversed_heights_error_reverse_spatial : forall hids l z,
+  (exists q, In q l /\ (q_max q <? q_min q)%float = true) ->
+  qv_to_sid hids l z = Some Err \/ qv_to_sid hids l z = None.
+Proof. exact qv_to_sid_reversed_heights. Qed.
+Print Assumptions C17_reversed_heights_error_reverse_spatial.
+(* the spatial-ID variant is the extended conversion at (z, z) with every ID rewritten from z/x/y/z/f to z/f/x/y *)
+Theorem C17_api_reverse_spatial : forall hids l z r, qv_to_sid hids l z = Some (Ok r) ->
+  exists a, qv_to_ext hids l z z = Some (Ok a) /\ map_opt eid_to_sid_str a = Some r.
+Proof. exact qv_to_sid_spec. Qed.
+Print Assumptions C17_api_reverse_spatial.
+
 (* ---------- 7. reverse direction: the vertical index of a bound is its exact floor; the emitted IDs are the contiguous run between the
    indices of the cell's two (computed) bounds and cover every altitude between them ---------- *)
 Theorem C17_vertical_index_is_exact_floor : forall (a : pfloat) oz, 0 <= oz <= 35 -> alt_ok a oz ->
